@@ -7,6 +7,7 @@ import CoapVerif.Driver.Codec
 -- DRIVER-OPS: tcp consts => Coap.Driver.Stream.step
 -- DRIVER-OPS: ws => Coap.Driver.Stream.wsStep
 -- DRIVER-OPS: wsclose => Coap.Driver.Stream.wsCloseStep
+-- DRIVER-OPS: wsself => Coap.Driver.Stream.wsSelfStep
 namespace Coap.Driver.Stream
 open Coap Coap.M.Stream Coap.Spec.Stream
 
@@ -99,10 +100,29 @@ def wsCloseStep (args : List String) : String :=
       | .open st, false =>
         if st.up then
           let d := Coap.M.Ws.wsClose mode st (bs.drop cut)
-          "M " ++ showMsgs r.1 ++ " drain rc=" ++ (if d.1 then "1" else "0") ++ " left=" ++ toString d.2.2.1.length
+          "M " ++ showMsgs r.1 ++ " drain rc=" ++ (if d.1 then "1" else "0") ++ " left=" ++ toString d.2.2.1.length ++
+            " rounds=" ++ toString (Coap.M.Ws.drainRounds mode Coap.M.Ws.drainCount st (bs.drop cut)) ++ " calls=" ++ toString d.2.2.2
         else "M " ++ showMsgs r.1 ++ " noclose"
       | _, _ => "M " ++ showMsgs r.1 ++ " noclose"
     | _, _, _ => "bad-op"
+  | _ => "bad-op"
+
+/-- `wsself <c|s> <stream-hex>`: the whole stream is received in one chunk; if the reader closes the session by itself
+(refusal or Close frame) what the `coap_ws_close` it runs from inside `coap_ws_read` leaves: recv_close, bytes of the
+chunk never read (model only) -/
+def wsSelfStep (args : List String) : String :=
+  match args with
+  | [m, h] =>
+    let mode? : Option Coap.Spec.Stream.Ws.Mode :=
+      if m = "c" then some .client else if m = "s" then some .server else none
+    match mode?, bytesOfHex h with
+    | some mode, some bs =>
+      let r := Coap.M.Ws.feed mode acceptConst {} [bs]
+      match Coap.M.Ws.selfClose mode acceptConst {} bs with
+      | some d => "M " ++ showMsgs r.1 ++ " self rc=" ++ (if d.1 then "1" else "0") ++ " left=" ++ toString d.2.2.1.length ++
+          " rounds=" ++ toString (Coap.M.Ws.selfCloseRounds mode acceptConst {} bs) ++ " calls=" ++ toString d.2.2.2
+      | none => "M " ++ showMsgs r.1 ++ " noself"
+    | _, _ => "bad-op"
   | _ => "bad-op"
 
 end Coap.Driver.Stream
